@@ -440,6 +440,11 @@ package graph
 //@ ghostvar reported set[any]
 //@ ghostvar dvisited set[any]
 //@ uf descends(cb DFSFunc, v any) bool
+// cbset(cb): the visit-set map callback cb itself records into (nil if it has none);
+// it exists before the traversal starts, so it is never the traversal's own map
+//@ uf cbset(cb DFSFunc) VisitM
+// neverFails(cb): cb returns an error only if the continuation it was given does
+//@ uf neverFails(cb DFSFunc) bool
 
 //@ ghost graphKept() bool =
 //@     forall(x, *Graph, imp(old(allocated(x)), x.adjacencyOut == old(x.adjacencyOut) && x.adjacencyIn == old(x.adjacencyIn) && x.hash == old(x.hash)))
@@ -454,6 +459,7 @@ package graph
 //@     && forall(x, any, y, any, imp(in(x, dvisited) && !old(in(x, dvisited)) && edge(g, x, y), in(y, dvisited) || (in(y, reported) && !descends(cb, g.hash[y]))))
 //@     && forall(y, any, imp(in(y, reported) && !old(in(y, reported)), exists(x, any, in(x, dvisited) && !old(in(x, dvisited)) && edge(g, x, y))))
 //@     && forall(x, any, imp(in(x, dvisited) && !old(in(x, dvisited)) && x != v, in(x, reported) && descends(cb, g.hash[x])))
+//@     && forall(y, any, imp(in(y, reported) && !old(in(y, reported)) && descends(cb, g.hash[y]), in(y, dvisited)))
 
 // The callback type. Assumed for arbitrary callbacks (T5: a callback touches no
 // traversal state except by calling next at most once, and it calls next iff
@@ -464,31 +470,44 @@ package graph
 //@   requires captured(next, "graph.(*Graph).dfs$1", "g") != nil && wf0(captured(next, "graph.(*Graph).dfs$1", "g")) && captured(next, "graph.(*Graph).dfs$1", "visited") != nil
 //@   requires dom(captured(next, "graph.(*Graph).dfs$1", "visited")) == dvisited && captured(next, "graph.(*Graph).dfs$1", "cb") == self
 //@   requires v == captured(next, "graph.(*Graph).dfs$1", "g").hash[captured(next, "graph.(*Graph).dfs$1", "w")]
+//@   requires [own-set-apart] captured(next, "graph.(*Graph).dfs$1", "visited") != cbset(self) && (cbset(self) == nil || allocated(cbset(self)))
 //@   ensures  in(captured(next, "graph.(*Graph).dfs$1", "w"), reported) && forall(k, any, imp(old(in(k, reported)), in(k, reported))) && forall(k, any, imp(old(in(k, dvisited)), in(k, dvisited)))
 //@   ensures  imp(result == nil && descends(self, v), dfsPost(captured(next, "graph.(*Graph).dfs$1", "g"), self, captured(next, "graph.(*Graph).dfs$1", "w")))
 //@   ensures  imp(!descends(self, v), dvisited == old(dvisited) && reported == add(old(reported), captured(next, "graph.(*Graph).dfs$1", "w")))
 //@   ensures  dom(captured(next, "graph.(*Graph).dfs$1", "visited")) == dvisited
 //@   ensures  graphKept()
 //@   ensures  [sets-only-grow] forall(m, VisitM, k, any, imp(old(allocated(m)) && old(has(m, k)), has(m, k)))
+//@   ensures  [reported-recorded] imp(cbset(self) != nil, forall(k, any, imp(in(k, reported) && !old(in(k, reported)), has(cbset(self), k))))
+//@   ensures  [only-reported-recorded] imp(cbset(self) != nil, forall(k, any, imp(has(cbset(self), k) && !old(has(cbset(self), k)), in(k, reported) && !old(in(k, reported)))))
+//@   ensures  [never-fails] imp(neverFails(self), result == nil)
 //@   assigns  VisitM, reported, dvisited
 
 //@ func (*Graph).dfs$1
-//@   requires g != nil && wf0(g) && visited != nil && cb != nil && !in(w, dvisited) && dom(visited) == dvisited
+//@   requires g != nil && wf0(g) && visited != nil && cb != nil && !in(w, dvisited) && dom(visited) == dvisited && visited != cbset(cb) && (cbset(cb) == nil || allocated(cbset(cb)))
 //@   ensures  imp(result == nil, dfsPost(g, cb, w))
 //@   ensures  dom(visited) == dvisited && graphKept()
 //@   ensures  forall(k, any, imp(old(in(k, reported)), in(k, reported))) && forall(k, any, imp(old(in(k, dvisited)), in(k, dvisited)))
 //@   ensures  [sets-only-grow] forall(m, VisitM, k, any, imp(old(allocated(m)) && old(has(m, k)), has(m, k)))
+//@   ensures  [reported-recorded] imp(cbset(cb) != nil, forall(k, any, imp(in(k, reported) && !old(in(k, reported)), has(cbset(cb), k))))
+//@   ensures  [only-reported-recorded] imp(cbset(cb) != nil, forall(k, any, imp(has(cbset(cb), k) && !old(has(cbset(cb), k)), in(k, reported) && !old(in(k, reported)))))
+//@   ensures  [never-fails] imp(neverFails(cb), result == nil)
 //@   assigns  VisitM, reported, dvisited
 
 //@ func (*Graph).dfs
-//@   requires wf0(g) && visited != nil && cb != nil && !in(v, dvisited) && dom(visited) == dvisited
+//@   requires wf0(g) && visited != nil && cb != nil && !in(v, dvisited) && dom(visited) == dvisited && visited != cbset(cb) && (cbset(cb) == nil || allocated(cbset(cb)))
 //@   ensures  [closure-certificate] imp(result == nil, dfsPost(g, cb, v))
 //@   ensures  [mirror] dom(visited) == dvisited
 //@   ensures  [graph-kept] graphKept()
 //@   ensures  [monotone] forall(k, any, imp(old(in(k, reported)), in(k, reported))) && forall(k, any, imp(old(in(k, dvisited)), in(k, dvisited)))
 //@   ensures  [sets-only-grow] forall(m, VisitM, k, any, imp(old(allocated(m)) && old(has(m, k)), has(m, k)))
+//@   ensures  [reported-recorded] imp(cbset(cb) != nil, forall(k, any, imp(in(k, reported) && !old(in(k, reported)), has(cbset(cb), k))))
+//@   ensures  [only-reported-recorded] imp(cbset(cb) != nil, forall(k, any, imp(has(cbset(cb), k) && !old(has(cbset(cb), k)), in(k, reported) && !old(in(k, reported)))))
+//@   ensures  [never-fails] imp(neverFails(cb), result == nil)
 //@   assigns  VisitM, reported, dvisited
 //@   after "visited[v] = struct{}{}" set dvisited = add(dvisited, v)
+//@   loop 1 invariant [reported-recorded] imp(cbset(cb) != nil, forall(k, any, imp(in(k, reported) && !old(in(k, reported)), has(cbset(cb), k))))
+//@   loop 1 invariant [only-reported-recorded] imp(cbset(cb) != nil, forall(k, any, imp(has(cbset(cb), k) && !old(has(cbset(cb), k)), in(k, reported) && !old(in(k, reported)))))
+//@   loop 1 invariant [descended] forall(y, any, imp(in(y, reported) && !old(in(y, reported)) && descends(cb, g.hash[y]), in(y, dvisited)))
 //@   loop 1 invariant [sets-only-grow] forall(m, VisitM, k, any, imp(old(allocated(m)) && old(has(m, k)), has(m, k)))
 //@   loop 1 invariant graphKept() && dom(visited) == dvisited && rmap1 == g.adjacencyOut[v]
 //@   loop 1 invariant forall(k, any, imp(old(in(k, dvisited)), in(k, dvisited))) && in(v, dvisited) && forall(k, any, imp(old(in(k, reported)), in(k, reported)))
@@ -499,13 +518,18 @@ package graph
 
 //@ func (*Graph).DFS
 //@   requires wf0(g) && cb != nil
+//@   requires [callback-set-exists-already] cbset(cb) == nil || allocated(cbset(cb))
 //@   ensures  [closure-certificate] imp(result == nil, in(hc(start), dvisited)
 //@               && forall(x, any, y, any, imp(in(x, dvisited) && edge(g, x, y), in(y, dvisited) || (in(y, reported) && !descends(cb, g.hash[y]))))
 //@               && forall(y, any, imp(in(y, reported) && !old(in(y, reported)), exists(x, any, in(x, dvisited) && edge(g, x, y))))
-//@               && forall(x, any, imp(in(x, dvisited) && x != hc(start), in(x, reported) && descends(cb, g.hash[x]))))
+//@               && forall(x, any, imp(in(x, dvisited) && x != hc(start), in(x, reported) && descends(cb, g.hash[x])))
+//@               && forall(y, any, imp(in(y, reported) && !old(in(y, reported)) && descends(cb, g.hash[y]), in(y, dvisited))))
 //@   ensures  [graph-kept] graphKept()
 //@   ensures  [monotone] forall(k, any, imp(old(in(k, reported)), in(k, reported)))
 //@   ensures  [sets-only-grow] forall(m, VisitM, k, any, imp(old(allocated(m)) && old(has(m, k)), has(m, k)))
+//@   ensures  [reported-recorded] imp(cbset(cb) != nil, forall(k, any, imp(in(k, reported) && !old(in(k, reported)), has(cbset(cb), k))))
+//@   ensures  [only-reported-recorded] imp(cbset(cb) != nil, forall(k, any, imp(has(cbset(cb), k) && !old(has(cbset(cb), k)), in(k, reported) && !old(in(k, reported)))))
+//@   ensures  [never-fails] imp(neverFails(cb), result == nil)
 //@   assigns  VisitM, reported, dvisited
 //@   before "return g.dfs(" set dvisited = emptyset(any)
 
